@@ -765,6 +765,9 @@ theorem main_stepN (ft : Feat) (e : BEnv) (Γ : Ctx) (cfg : SerCfg) (pcfg : Pars
               · simp [FN.fixedOK, hc] at h
             exact cls_bundle ft e Γ cfg pcfg M n hΓ IH hf MF.choices hc htk ht hd hm hinitC (hbodyE var hv) f'
               (by omega)
+          | union hc hp hu hi htk hn hd =>
+            exact (union_bundle e Γ cfg pcfg M _ _ hf (mixedContent_false MF) hc hp hu hi htk hn hd _
+              (hbodyE var hv) f' (by omega)).toG hf MF.choices
         · exact wild_bundle e Γ cfg pcfg M _ _ hwf (hbodyE var hv) f' (by omega)
       -- `next_value`
       have hVS : ∀ var ∈ mp.elementVars, VarSeq fields var := fun var hv =>
